@@ -56,6 +56,10 @@ def judge(doms, cons):
     m, xs, ok = cplib.make_model(doms, cons)
     if not ok:
         return None, "skipped", False
+    return judge_model(m, xs, doms, cons)
+
+
+def judge_model(m, xs, doms, cons):
     install_capture()
     _CAPTURE["clauses"] = None
     try:
@@ -140,6 +144,56 @@ def _chunk(params, lo, hi):
     return r
 
 
+def run_incremental(r, idx):
+    """History of one Model (the C05 family): build and solve, add a variable and constraints, encode again. The CNF
+    of the *second* encoding is judged. index = ((a*|B| + b)*3 + wdom)*2 + s1"""
+    from solvor.cp import Model
+
+    from checks.c05 import INC_A, INC_B, INC_WDOM, NAMES
+
+    s1 = ("sat", "auto")[idx % 2]
+    k = idx // 2
+    wd = INC_WDOM[k % 3]
+    k //= 3
+    cb = INC_B[k % len(INC_B)]
+    ca = INC_A[k // len(INC_B)]
+    doms1 = ((0, 2), (0, 2), (0, 2))
+    m = Model()
+    xs = [m.int_var(lo, hi, NAMES[i]) for i, (lo, hi) in enumerate(doms1)]
+    for c in ca:
+        cplib.add_to_model(m, c, xs)
+    wit = {"incremental": idx, "first": [_jsonable(c) for c in ca], "second": [_jsonable(c) for c in cb], "w_domain": list(wd), "solver1": s1}
+    txt = f"model x,y,z in 0..2 with {[cplib.show_con(c) for c in ca]} solved with {s1}; then u in {wd} and {[cplib.show_con(c) for c in cb]} added and encoded again"
+    r["n"] += 1
+    try:
+        gcall(lambda: m.solve(solver=s1), 5.0, 50_000_000)
+        xs.append(m.int_var(wd[0], wd[1], NAMES[3]))
+        for c in cb:
+            cplib.add_to_model(m, c, xs)
+    except Exception as ex:  # noqa: BLE001
+        r["outcomes"]["incremental:raised"] += 1
+        r["violations"].append(viol("SATEncoder", "raised" if not isinstance(ex, SolverHang) else "nontermination", wit, f"{txt}: {type(ex).__name__}: {ex}"))
+        return
+    errs, label, nt = judge_model(m, xs, doms1 + (wd,), ca + cb)
+    r["outcomes"]["incremental:" + label] += 1
+    if nt:
+        r["nontrivial"] += 1
+    if not r["samples"]:
+        r["samples"].append(wit)
+    for kind, detail in errs:
+        r["violations"].append(viol("SATEncoder", kind, wit, f"{txt}: {detail}"))
+
+
+def _inc_chunk(params, lo, hi):
+    r = new_result()
+    for idx in range(lo, hi):
+        run_incremental(r, idx)
+        if len(r["violations"]) >= 40 or too_many_hangs():
+            r["capped"] = True
+            break
+    return r
+
+
 def plan(tier, seed):
     q = tier == "quick"
     b4 = (seed % 4, 4) if q else None
@@ -184,11 +238,18 @@ def jobs(tier, seed):
             lo, hi = size * b // nb, size * (b + 1) // nb
             label = f"{name}_block{b}of{nb}"
         js.append(Job(label, hi - lo, _chunk, (name, lo), describe=f"model space '{name}' ({size} models){' - rotating block (VERIF_SEED), enumerated completely' if block else ''}"))
+    from checks.c05 import INC_A, INC_B
+
+    js.append(Job("incremental_encode", len(INC_A) * len(INC_B) * 3 * 2, _inc_chunk, None, describe="histories of one Model object: build, solve (sat/auto), add a variable and constraints; the CNF of the second encoding is judged (8 first parts x 8 second parts x 3 domains x 2 first solvers)"))
     return js
 
 
 def replay(v):
     w = v["witness"]
+    if "incremental" in w:
+        r = new_result()
+        run_incremental(r, w["incremental"])
+        return r["violations"][0] if r["violations"] else None
     doms = tuple(tuple(d) for d in w["domains"])
     cons = [_tuplify(c) for c in w["constraints"]]
     errs, _, _ = judge(doms, cons)
